@@ -2,7 +2,7 @@
    Model: UV.C18.Model.script_run (cmds/script.c) over the reader model of C06. *)
 From Coq Require Import NArith List Bool.
 Import ListNotations.
-Require Import UV.C06.Model UV.C06.Proofs UV.C18.Model UV.C18.Proofs.
+Require Import UV.C06.Model UV.C06.Proofs UV.C18.Model UV.C18.Proofs UV.C18.Filter UV.C18.FilterProofs.
 Local Open Scope N_scope.
 
 (* uftrace_begin once; then one uftrace_entry/uftrace_exit per line of `replay --no-merge` for the
@@ -47,3 +47,21 @@ Theorem C18_pairing_checker_accepts_forests_partial : forall i f t dd stk,
   paired stk (map cb_of_event (render_forest i dd f ++ render_tail i dd t)) = true.
 Proof. exact paired_forest_and_tail. Qed.
 Print Assumptions C18_pairing_checker_accepts_forests_partial.
+
+(* the same WITH replay-time filter options (-D depth, -F / -N functions; model UV.C18.Filter of
+   fstack_entry / fstack_exit): the callbacks are exactly the UFTRACE_FUNCS sub-sequence of what
+   `replay --no-merge` shows with the same options, for every input *)
+Theorem C18_funcs_filter_with_options : forall o forks funcs sel tasks,
+  script_opts o forks funcs sel tasks =
+  CBegin :: filter (cb_keep funcs) (map cb_of_event (replay_opts o forks sel tasks)) ++ [CEnd].
+Proof. exact script_funcs_filter_with_options. Qed.
+Print Assumptions C18_funcs_filter_with_options.
+
+(* ... and it depends on the EXIT branch undoing the filter state (fstack_exit) also for an
+   unlisted function: the driver that forgets it is refuted by a witness (-D 2) *)
+Theorem C18_leaky_exit_refuted :
+  let o := mkfopts 2 [] [] in
+  leaky_script_f o [] [3] leak_tasks (merge (mask_queues None leak_tasks 0)) (init_g None leak_tasks) (F0 o leak_tasks) <>
+  filter (cb_keep [3]) (map cb_of_event (replay_opts o [] None leak_tasks)).
+Proof. exact leaky_exit_refuted. Qed.
+Print Assumptions C18_leaky_exit_refuted.
